@@ -25,6 +25,7 @@ EXPLANATION = (
 )
 ASSUMPTIONS = ["the action loop is the only consumer of the action channel", "tracing macro expansions are effect-free"]
 
+
 A = "actor::"
 GATES = r"actor::OpenReplicas::(get_mut|ensure_open|replica|replica_if_syncing)$"
 EFFECTS = [
@@ -39,6 +40,9 @@ EFFECTS = [
     (r"sync::ReplicaInfo::subscribe$", "subscribe"),
     (r"sync::ReplicaInfo::unsubscribe$", "subscribe"),
 ]
+
+
+EXPLANATION += ' (R5, round 8) also doc_start_sync / doc_leave, and the close of an API handle claims its closed flag by an atomic read-modify-write before the request is sent.'
 
 
 def actor_bodies(f):
